@@ -98,7 +98,7 @@ func (s *SpecSchedule) Next(t time.Time) time.Time {
 	for t.Year() <= yearLimit {
 		name, offset := t.Zone()
 		end := offsetEnd(t, yearLimit)
-		next := s.nextFixed(t.In(time.FixedZone(name, offset)), yearLimit)
+		next := s.nextFixed(t.In(time.FixedZone(name, offset)), yearLimit, end)
 		if !next.IsZero() && (end.IsZero() || next.Before(end)) {
 			return next.In(origLocation)
 		}
@@ -137,7 +137,7 @@ func offsetEnd(t time.Time, yearLimit int) time.Time {
 // nextFixed returns the first activation time at or after t, which must be a
 // whole second in a location with a constant UTC offset, or the zero time if
 // there is none up to the end of yearLimit.
-func (s *SpecSchedule) nextFixed(t time.Time, yearLimit int) time.Time {
+func (s *SpecSchedule) nextFixed(t time.Time, yearLimit int, stop time.Time) time.Time {
 	// General approach
 	//
 	// For Month, Day, Hour, Minute, Second:
@@ -153,6 +153,10 @@ func (s *SpecSchedule) nextFixed(t time.Time, yearLimit int) time.Time {
 
 WRAP:
 	if t.Year() > yearLimit {
+		return time.Time{}
+	}
+	// Nothing at or after stop (the end of the searched period) would be used.
+	if !stop.IsZero() && !t.Before(stop) {
 		return time.Time{}
 	}
 
